@@ -8,6 +8,8 @@
 #[macro_use]
 pub mod vsrc;
 pub mod models;
+#[cfg(not(kani))]
+pub mod mexec;
 
 /// Declare a harness: `harness!(name, unwind N, { body })`, optionally with stubs:
 /// `harness!(name, unwind N, wmul, { .. })`, `... wmul_ln ...`, `... ln ...`.
@@ -46,5 +48,6 @@ pub mod h_hll;
 pub mod h_mem;
 pub mod h_qf;
 pub mod h_reservoir;
+pub mod h_tdigest;
 
 pub mod registry;
